@@ -25,7 +25,7 @@ func init() {
 		Assumptions: []string{"evictions of key-cache entries happen only inside keys.Set / keys.Close (pkg/cache has no expiry configured for key caches)", "String() methods reached only through fmt are diagnostic (exempt, listed)"},
 		Tech:        "static analysis: lock-state dataflow per mutex on SSA with inferred helper entry states; path search for unlock between lookup and refcount increment; who-may-call",
 		NeedU1:      true,
-		Rules:       []func(*Ctx){ruleC01OldKeysAddressable, ruleC08CacheStateUnderLock, ruleC08HandoutUnderLock, ruleC08RefcountProtocol, ruleC08EveryHandoutCounted, ruleC08StorageDoesNotRelease, ruleC05MergeIdentity, ruleC05ReloadRefreshes, ruleC09DisplacedEntry, ruleC09KeyCacheNeverDeletes, ruleC08SharedCacheNotClosedBySession, ruleC16TeardownWaits, ruleC15CallbackExactlyOnce, ruleC15RemovalNotifies, ruleC15RemoveUnlinks, ruleC15RelinkIsAMove, ruleC15ElementRecorded, ruleC15SegmentMoveConserves, ruleC15RegistrationFollowsSegment, lostUpdateRule("C16", "github.com/godaddy/asherah/go/appencryption"), lockBalancedRule("C08", 8, lockDomSpec{pkgApp, "keyCache", "rw"}), ruleC08SharedCacheCreatedOnlyWhenFlagged, ruleC15SegmentFlagFollowsList, ruleC08SessionCloseOnlyClosesEncryption},
+		Rules:       []func(*Ctx){ruleC01OldKeysAddressable, ruleC08CacheStateUnderLock, ruleC08HandoutUnderLock, ruleC08RefcountProtocol, ruleC08EveryHandoutCounted, ruleC08StorageDoesNotRelease, ruleC05MergeIdentity, ruleC05ReloadRefreshes, ruleC09DisplacedEntry, ruleC09KeyCacheNeverDeletes, ruleC08SharedCacheNotClosedBySession, ruleC16TeardownWaits, ruleC15CallbackExactlyOnce, ruleC15RemovalNotifies, ruleC15RemoveUnlinks, ruleC15RelinkIsAMove, ruleC15ElementRecorded, ruleC15SegmentMoveConserves, ruleC15RegistrationFollowsSegment, lostUpdateRule("C16", "github.com/godaddy/asherah/go/appencryption"), lockBalancedRule("C08", 8, lockDomSpec{pkgApp, "keyCache", "rw"}), ruleC08SharedCacheCreatedOnlyWhenFlagged, ruleC15SegmentFlagFollowsList, ruleC08SessionCloseOnlyClosesEncryption, ruleC15ListHandleBelongsToItsItem},
 	})
 }
 
